@@ -186,5 +186,447 @@ theorem famStep_sec (inclW : Bool) (ms attr fam : Nat) (ra wa w a : List Nlri)
         intro r hr
         rw [feedReach_unreach] at hr; cases hr
 
+theorem famLoop_sec (inclW : Bool) (ms attr : Nat) (ma mw : List Nlri)
+    (hR : ∀ f maxi, ∀ r ∈ (reachGen maxi f (groupsOf (ma.filter (fun x => x.fam = f)))).1, R r)
+    (hU : inclW = true → ∀ f maxi, ∀ u ∈ (unreachGen maxi f (mw.filter (fun x => x.fam = f))).1, U u) :
+    ∀ (fs : List Nat) (w a : List Nlri), (∀ x ∈ a, A4 x) → (∀ x ∈ w, W4 x) →
+      ∀ m ∈ (famLoop inclW ms attr ma mw fs w a).1, SecOK A4 W4 R U m := by
+  intro fs
+  induction fs with
+  | nil => intro w a _ _ m hm; simp [famLoop] at hm
+  | cons f fs ih =>
+    intro w a ha hw m hm
+    have s1 := famStep_sec (A4 := A4) (W4 := W4) (R := R) (U := U) inclW ms attr f
+      (ma.filter (fun x => x.fam = f)) (mw.filter (fun x => x.fam = f)) w a (hR f) (fun hi => hU hi f) ha hw
+    unfold famLoop at hm
+    simp only at hm
+    split at hm
+    · exact s1 m hm
+    · simp only [List.mem_append] at hm
+      rcases hm with hm | hm
+      · exact s1 m hm
+      · exact ih [] [] (by intro y hy; simp at hy) (by intro y hy; simp at hy) m hm
+
 end sec
+
+/-! ### what the generators yield -/
+
+/-- Every MP_REACH attribute is for the family asked, carries ONE next hop, and every NLRI in it
+    is a requested one with exactly that next hop. -/
+theorem reachGen_sec (maxi fam : Nat) (ra : List Nlri) :
+    ∀ r ∈ (reachGen maxi fam (groupsOf ra)).1,
+      r.fam = fam ∧ r.hdr = 5 + r.nhLen ∧ ∀ x ∈ r.items, x ∈ ra ∧ x.nh = r.nh ∧ x.nhLen = r.nhLen := by
+  have key : ∀ gs : List ((Nat × Nat) × List Nlri), (∀ g ∈ gs, ∀ x ∈ g.2, x ∈ ra ∧ nhKey x = g.1) →
+      ∀ r ∈ (reachGen maxi fam gs).1,
+        r.fam = fam ∧ r.hdr = 5 + r.nhLen ∧ ∀ x ∈ r.items, x ∈ ra ∧ x.nh = r.nh ∧ x.nhLen = r.nhLen := by
+    intro gs
+    induction gs with
+    | nil => intro _ r hr; simp [reachGen] at hr
+    | cons g gs ih =>
+      intro hg r hr
+      obtain ⟨k, xs⟩ := g
+      have hgs : ∀ g ∈ gs, ∀ x ∈ g.2, x ∈ ra ∧ nhKey x = g.1 := fun g' hg' => hg g' (by simp [hg'])
+      have h0 := hg (k, xs) (by simp)
+      have one : ∀ it ∈ (splitGroup maxi (5 + k.2) xs []).1,
+          ∀ x ∈ it, x ∈ ra ∧ x.nh = k.1 ∧ x.nhLen = k.2 := by
+        intro it hit x hx
+        rcases splitGroup_sub maxi (5 + k.2) xs [] it hit x hx with h | h
+        · simp at h
+        · have := h0 x h
+          refine ⟨this.1, ?_, ?_⟩
+          · have := congrArg Prod.fst this.2; simpa [nhKey] using this
+          · have := congrArg Prod.snd this.2; simpa [nhKey] using this
+      unfold reachGen at hr
+      simp only at hr
+      split at hr
+      · simp only [List.mem_map] at hr
+        obtain ⟨it, hit, rfl⟩ := hr
+        exact ⟨rfl, rfl, one it hit⟩
+      · simp only [List.mem_append, List.mem_map] at hr
+        rcases hr with ⟨it, hit, rfl⟩ | hr
+        · exact ⟨rfl, rfl, one it hit⟩
+        · exact ih hgs r hr
+  exact key (groupsOf ra) (fun g hg => groupsOf_mem hg)
+
+theorem unreachGen_sec (maxi fam : Nat) (wa : List Nlri) :
+    ∀ u ∈ (unreachGen maxi fam wa).1, u.fam = fam ∧ u.hdr = 3 ∧ ∀ x ∈ u.items, x ∈ wa := by
+  intro u hu
+  unfold unreachGen at hu
+  simp only [List.mem_map] at hu
+  obtain ⟨it, hit, rfl⟩ := hu
+  refine ⟨rfl, rfl, ?_⟩
+  intro x hx
+  rcases splitGroup_sub maxi 3 wa [] it hit x hx with h | h
+  · simp at h
+  · exact h
+
+/-! ### nothing in hand is lost -/
+
+theorem v4AnnLoop_cover (ms attr : Nat) :
+    ∀ (xs w a : List Nlri), (v4AnnLoop ms attr xs w a).bailed = false →
+      (∀ x, x ∈ xs ∨ x ∈ a → (∃ m ∈ (v4AnnLoop ms attr xs w a).msgs, x ∈ m.ann4) ∨ x ∈ (v4AnnLoop ms attr xs w a).a) ∧
+      (∀ x ∈ w, (∃ m ∈ (v4AnnLoop ms attr xs w a).msgs, x ∈ m.wd4) ∨ x ∈ (v4AnnLoop ms attr xs w a).w) := by
+  intro xs
+  induction xs with
+  | nil =>
+    intro w a _
+    simp [v4AnnLoop]
+  | cons x xs ih =>
+    intro w a hb
+    unfold v4AnnLoop at hb ⊢
+    split
+    · rename_i hfit
+      simp only [hfit, if_true] at hb
+      have := ih w (a ++ [x]) hb
+      refine ⟨?_, this.2⟩
+      intro y hy
+      apply this.1 y
+      rcases hy with hy | hy
+      · simp only [List.mem_cons] at hy
+        rcases hy with rfl | hy
+        · exact Or.inr (by simp)
+        · exact Or.inl hy
+      · exact Or.inr (by simp [hy])
+    · rename_i hfit
+      simp only [hfit, if_false] at hb
+      split
+      · rename_i h0; simp [h0] at hb
+      · rename_i h0
+        simp only [h0, if_false] at hb
+        have := ih [] [x] hb
+        constructor
+        · intro y hy
+          rcases hy with hy | hy
+          · simp only [List.mem_cons] at hy
+            rcases hy with rfl | hy
+            · rcases this.1 y (Or.inr (by simp)) with ⟨m, hm, hym⟩ | h
+              · exact Or.inl ⟨m, by simp [hm], hym⟩
+              · exact Or.inr h
+            · rcases this.1 y (Or.inl hy) with ⟨m, hm, hym⟩ | h
+              · exact Or.inl ⟨m, by simp [hm], hym⟩
+              · exact Or.inr h
+          · exact Or.inl ⟨_, List.mem_cons_self, by simpa using hy⟩
+        · intro y hy
+          exact Or.inl ⟨_, List.mem_cons_self, by simpa using hy⟩
+
+theorem v4WdLoop_cover (ms attr : Nat) :
+    ∀ (xs w a : List Nlri), (v4WdLoop ms attr xs w a).bailed = false →
+      (∀ x, x ∈ xs ∨ x ∈ w → (∃ m ∈ (v4WdLoop ms attr xs w a).msgs, x ∈ m.wd4) ∨ x ∈ (v4WdLoop ms attr xs w a).w) ∧
+      (∀ x ∈ a, (∃ m ∈ (v4WdLoop ms attr xs w a).msgs, x ∈ m.ann4) ∨ x ∈ (v4WdLoop ms attr xs w a).a) := by
+  intro xs
+  induction xs with
+  | nil =>
+    intro w a _
+    simp [v4WdLoop]
+  | cons x xs ih =>
+    intro w a hb
+    unfold v4WdLoop at hb ⊢
+    split
+    · rename_i hfit
+      simp only [hfit, if_true] at hb
+      have := ih (w ++ [x]) a hb
+      refine ⟨?_, this.2⟩
+      intro y hy
+      apply this.1 y
+      rcases hy with hy | hy
+      · simp only [List.mem_cons] at hy
+        rcases hy with rfl | hy
+        · exact Or.inr (by simp)
+        · exact Or.inl hy
+      · exact Or.inr (by simp [hy])
+    · rename_i hfit
+      simp only [hfit, if_false] at hb
+      split
+      · rename_i h0; simp [h0] at hb
+      · rename_i h0
+        simp only [h0, if_false] at hb
+        have := ih [x] [] hb
+        constructor
+        · intro y hy
+          rcases hy with hy | hy
+          · simp only [List.mem_cons] at hy
+            rcases hy with rfl | hy
+            · rcases this.1 y (Or.inr (by simp)) with ⟨m, hm, hym⟩ | h
+              · exact Or.inl ⟨m, by simp [hm], hym⟩
+              · exact Or.inr h
+            · rcases this.1 y (Or.inl hy) with ⟨m, hm, hym⟩ | h
+              · exact Or.inl ⟨m, by simp [hm], hym⟩
+              · exact Or.inr h
+          · exact Or.inl ⟨_, List.mem_cons_self, by simpa using hy⟩
+        · intro y hy
+          exact Or.inl ⟨_, List.mem_cons_self, by simpa using hy⟩
+
+theorem v4Final_cover (attr : Nat) (w a : List Nlri) (hw : Pos w) (ha : Pos a) :
+    (∀ x ∈ a, ∃ m ∈ v4Final attr w a, x ∈ m.ann4) ∧ (∀ x ∈ w, ∃ m ∈ v4Final attr w a, x ∈ m.wd4) := by
+  constructor
+  · intro x hx
+    have : sz a ≠ 0 := by
+      intro h; rw [(sz_eq_zero_of_pos ha).1 h] at hx; simp at hx
+    unfold v4Final; simp [this]; exact hx
+  · intro x hx
+    have : sz w ≠ 0 := by
+      intro h; rw [(sz_eq_zero_of_pos hw).1 h] at hx; simp at hx
+    unfold v4Final; simp [this]; exact hx
+
+theorem reachGen_cover (maxi fam : Nat) :
+    ∀ gs : List ((Nat × Nat) × List Nlri), (reachGen maxi fam gs).2 = false → (∀ g ∈ gs, Pos g.2) →
+      ∀ g ∈ gs, ∀ x ∈ g.2, ∃ r ∈ (reachGen maxi fam gs).1, x ∈ r.items := by
+  intro gs
+  induction gs with
+  | nil => intro _ _ g hg; simp at hg
+  | cons g0 gs ih =>
+    intro he hpos g hg x hx
+    obtain ⟨k, xs⟩ := g0
+    unfold reachGen at he ⊢
+    simp only at he ⊢
+    split
+    · rename_i h2; simp [h2] at he
+    · rename_i h2
+      simp only [h2] at he
+      have h2' : (splitGroup maxi (5 + k.2) xs []).2 = false := by simpa using h2
+      simp only [List.mem_cons] at hg
+      rcases hg with rfl | hg
+      · have hf := splitGroup_flatten maxi (5 + k.2) xs [] (hpos (k, xs) (by simp)) (by intro y hy; simp at hy) h2'
+        have : x ∈ (splitGroup maxi (5 + k.2) xs []).1.flatten := by rw [hf]; simpa using hx
+        obtain ⟨it, hit, hxit⟩ := List.mem_flatten.1 this
+        exact ⟨_, List.mem_append_left _ (List.mem_map.2 ⟨it, hit, rfl⟩), hxit⟩
+      · obtain ⟨r, hr, hxr⟩ := ih he (fun g' hg' => hpos g' (by simp [hg'])) g hg x hx
+        exact ⟨r, List.mem_append_right _ hr, hxr⟩
+
+theorem unreachGen_cover (maxi fam : Nat) (xs : List Nlri) (he : (unreachGen maxi fam xs).2 = false) (hp : Pos xs) :
+    ∀ x ∈ xs, ∃ u ∈ (unreachGen maxi fam xs).1, x ∈ u.items := by
+  intro x hx
+  unfold unreachGen at he ⊢
+  simp only at he ⊢
+  have hf := splitGroup_flatten maxi 3 xs [] hp (by intro y hy; simp at hy) he
+  have : x ∈ (splitGroup maxi 3 xs []).1.flatten := by rw [hf]; simpa using hx
+  obtain ⟨it, hit, hxit⟩ := List.mem_flatten.1 this
+  exact ⟨_, List.mem_map.2 ⟨it, hit, rfl⟩, hxit⟩
+
+theorem feedReach_cover (attr : Nat) :
+    ∀ (rs : List Mp) (w a : List Nlri) (p : Option Mp),
+      (∀ r, r ∈ rs ∨ p = some r →
+        (∃ m ∈ (feedReach attr rs w a p).1, m.reach = some r) ∨ (feedReach attr rs w a p).2.reach = some r) ∧
+      (∀ x ∈ a, (∃ m ∈ (feedReach attr rs w a p).1, x ∈ m.ann4) ∨ x ∈ (feedReach attr rs w a p).2.a) ∧
+      (∀ x ∈ w, (∃ m ∈ (feedReach attr rs w a p).1, x ∈ m.wd4) ∨ x ∈ (feedReach attr rs w a p).2.w) := by
+  intro rs
+  induction rs with
+  | nil =>
+    intro w a p
+    refine ⟨?_, ?_, ?_⟩
+    · intro r hr; simp at hr; simp [feedReach, hr]
+    · intro x hx; simp [feedReach, hx]
+    · intro x hx; simp [feedReach, hx]
+  | cons r rs ih =>
+    intro w a p
+    cases p with
+    | none =>
+      unfold feedReach
+      have := ih w a (some r)
+      refine ⟨?_, this.2⟩
+      intro r' hr'
+      apply this.1 r'
+      rcases hr' with hr' | hr'
+      · simp only [List.mem_cons] at hr'
+        rcases hr' with rfl | hr'
+        · exact Or.inr rfl
+        · exact Or.inl hr'
+      · cases hr'
+    | some p =>
+      unfold feedReach
+      have := ih [] [] (some r)
+      refine ⟨?_, ?_, ?_⟩
+      · intro r' hr'
+        rcases hr' with hr' | hr'
+        · have h' : r' ∈ rs ∨ some r = some r' := by
+            simp only [List.mem_cons] at hr'
+            rcases hr' with rfl | hr'
+            · exact Or.inr rfl
+            · exact Or.inl hr'
+          rcases this.1 r' h' with ⟨m, hm, hmr⟩ | h
+          · exact Or.inl ⟨m, by simp [hm], hmr⟩
+          · exact Or.inr h
+        · cases hr'
+          exact Or.inl ⟨_, List.mem_cons_self, rfl⟩
+      · intro x hx; exact Or.inl ⟨_, List.mem_cons_self, by simpa using hx⟩
+      · intro x hx; exact Or.inl ⟨_, List.mem_cons_self, by simpa using hx⟩
+
+theorem feedUnreach_cover (attr : Nat) :
+    ∀ (us : List Mp) (w a : List Nlri) (p u : Option Mp),
+      (∀ r, r ∈ us ∨ u = some r →
+        (∃ m ∈ (feedUnreach attr us w a p u).1, m.unreach = some r) ∨ (feedUnreach attr us w a p u).2.unreach = some r) ∧
+      (∀ r, p = some r →
+        (∃ m ∈ (feedUnreach attr us w a p u).1, m.reach = some r) ∨ (feedUnreach attr us w a p u).2.reach = some r) ∧
+      (∀ x ∈ a, (∃ m ∈ (feedUnreach attr us w a p u).1, x ∈ m.ann4) ∨ x ∈ (feedUnreach attr us w a p u).2.a) ∧
+      (∀ x ∈ w, (∃ m ∈ (feedUnreach attr us w a p u).1, x ∈ m.wd4) ∨ x ∈ (feedUnreach attr us w a p u).2.w) := by
+  intro us
+  induction us with
+  | nil =>
+    intro w a p u
+    refine ⟨?_, ?_, ?_, ?_⟩
+    · intro r hr; simp at hr; simp [feedUnreach, hr]
+    · intro r hr; simp [feedUnreach, hr]
+    · intro x hx; simp [feedUnreach, hx]
+    · intro x hx; simp [feedUnreach, hx]
+  | cons x us ih =>
+    intro w a p u
+    cases u with
+    | none =>
+      unfold feedUnreach
+      have := ih w a p (some x)
+      refine ⟨?_, this.2⟩
+      intro r' hr'
+      apply this.1 r'
+      rcases hr' with hr' | hr'
+      · simp only [List.mem_cons] at hr'
+        rcases hr' with rfl | hr'
+        · exact Or.inr rfl
+        · exact Or.inl hr'
+      · cases hr'
+    | some u =>
+      unfold feedUnreach
+      have := ih [] [] none (some x)
+      refine ⟨?_, ?_, ?_, ?_⟩
+      · intro r' hr'
+        rcases hr' with hr' | hr'
+        · have h' : r' ∈ us ∨ some x = some r' := by
+            simp only [List.mem_cons] at hr'
+            rcases hr' with rfl | hr'
+            · exact Or.inr rfl
+            · exact Or.inl hr'
+          rcases this.1 r' h' with ⟨m, hm, hmr⟩ | h
+          · exact Or.inl ⟨m, by simp [hm], hmr⟩
+          · exact Or.inr h
+        · cases hr'
+          exact Or.inl ⟨_, List.mem_cons_self, rfl⟩
+      · intro r hr; exact Or.inl ⟨_, List.mem_cons_self, by simpa using hr⟩
+      · intro y hy; exact Or.inl ⟨_, List.mem_cons_self, by simpa using hy⟩
+      · intro y hy; exact Or.inl ⟨_, List.mem_cons_self, by simpa using hy⟩
+
+theorem famFinal_cover (attr : Nat) (s : MpSt) :
+    (∀ r, s.reach = some r → ∃ m ∈ famFinal attr s, m.reach = some r) ∧
+    (∀ r, s.unreach = some r → ∃ m ∈ famFinal attr s, m.unreach = some r) := by
+  constructor
+  · intro r hr
+    unfold famFinal; simp [hr]
+  · intro r hr
+    unfold famFinal; simp [hr]
+
+/-- the NLRI `x` is in the MP_REACH_NLRI of some message of `l` -/
+def InReach (l : List Msg) (x : Nlri) : Prop := ∃ m ∈ l, ∃ r, m.reach = some r ∧ x ∈ r.items
+/-- the NLRI `x` is in the MP_UNREACH_NLRI of some message of `l` -/
+def InUnreach (l : List Msg) (x : Nlri) : Prop := ∃ m ∈ l, ∃ u, m.unreach = some u ∧ x ∈ u.items
+
+theorem InReach_mono {l l' : List Msg} (h : ∀ m ∈ l, m ∈ l') {x : Nlri} : InReach l x → InReach l' x := by
+  rintro ⟨m, hm, r, hr, hx⟩; exact ⟨m, h m hm, r, hr, hx⟩
+theorem InUnreach_mono {l l' : List Msg} (h : ∀ m ∈ l, m ∈ l') {x : Nlri} : InUnreach l x → InUnreach l' x := by
+  rintro ⟨m, hm, r, hr, hx⟩; exact ⟨m, h m hm, r, hr, hx⟩
+
+theorem famStep_cover (inclW : Bool) (ms attr fam : Nat) (ra wa w a : List Nlri)
+    (he : (famStep inclW ms attr fam ra wa w a).2 = false) (hra : Pos ra) (hwa : Pos wa) :
+    (∀ x ∈ ra, InReach (famStep inclW ms attr fam ra wa w a).1 x) ∧
+    (inclW = true → ∀ x ∈ wa, InUnreach (famStep inclW ms attr fam ra wa w a).1 x) := by
+  unfold famStep at he ⊢
+  simp only at he ⊢
+  generalize hrg : reachGen (ms - (sz w + sz a)) fam (groupsOf ra) = rg at he ⊢
+  have c1 := feedReach_cover attr rg.1 w a none
+  generalize hfr : feedReach attr rg.1 w a none = fr at he c1 ⊢
+  by_cases h2 : rg.2 = true
+  · simp [h2] at he
+  · have h2' : rg.2 = false := by simpa using h2
+    simp only [h2', Bool.false_eq_true, if_false] at he ⊢
+    -- every requested announce is in some attribute the generator yielded
+    have inR : ∀ x ∈ ra, ∃ r ∈ rg.1, x ∈ r.items := by
+      intro x hx
+      obtain ⟨g, hg, hxg, _⟩ := groupsOf_cover hx
+      have hp : ∀ g ∈ groupsOf ra, Pos g.2 := fun g hg y hy => hra y (groupsOf_mem hg y hy).1
+      have := reachGen_cover (ms - (sz w + sz a)) fam (groupsOf ra) (by rw [hrg]; exact h2') hp g hg x hxg
+      rw [hrg] at this; exact this
+    by_cases hi : inclW = true
+    · simp only [hi, if_true] at he ⊢
+      generalize hug : unreachGen (ms - (sz fr.2.w + sz fr.2.a + owire fr.2.reach)) fam wa = ug at he ⊢
+      have c2 := feedUnreach_cover attr ug.1 fr.2.w fr.2.a fr.2.reach none
+      generalize hfu : feedUnreach attr ug.1 fr.2.w fr.2.a fr.2.reach none = fu at he c2 ⊢
+      by_cases h3 : ug.2 = true
+      · simp [h3] at he
+      · have h3' : ug.2 = false := by simpa using h3
+        simp only [h3', Bool.false_eq_true, if_false]
+        have cf := famFinal_cover attr fu.2
+        constructor
+        · intro x hx
+          obtain ⟨r, hr, hxr⟩ := inR x hx
+          rcases c1.1 r (Or.inl hr) with ⟨m, hm, hmr⟩ | hst
+          · exact ⟨m, by simp [hm], r, hmr, hxr⟩
+          · rcases c2.2.1 r hst with ⟨m, hm, hmr⟩ | hst2
+            · exact ⟨m, by simp [hm], r, hmr, hxr⟩
+            · obtain ⟨m, hm, hmr⟩ := cf.1 r hst2
+              exact ⟨m, by simp [hm], r, hmr, hxr⟩
+        · intro _ x hx
+          have := unreachGen_cover (ms - (sz fr.2.w + sz fr.2.a + owire fr.2.reach)) fam wa (by rw [hug]; exact h3') hwa x hx
+          rw [hug] at this
+          obtain ⟨u, hu, hxu⟩ := this
+          rcases c2.1 u (Or.inl hu) with ⟨m, hm, hmu⟩ | hst
+          · exact ⟨m, by simp [hm], u, hmu, hxu⟩
+          · obtain ⟨m, hm, hmu⟩ := cf.2 u hst
+            exact ⟨m, by simp [hm], u, hmu, hxu⟩
+    · have hi' : inclW = false := by simpa using hi
+      simp only [hi', Bool.false_eq_true, if_false]
+      have cf := famFinal_cover attr fr.2
+      constructor
+      · intro x hx
+        obtain ⟨r, hr, hxr⟩ := inR x hx
+        rcases c1.1 r (Or.inl hr) with ⟨m, hm, hmr⟩ | hst
+        · exact ⟨m, by simp [hm], r, hmr, hxr⟩
+        · obtain ⟨m, hm, hmr⟩ := cf.1 r hst
+          exact ⟨m, by simp [hm], r, hmr, hxr⟩
+      · intro h; cases h
+
+theorem famLoop_cover (inclW : Bool) (ms attr : Nat) (ma mw : List Nlri) (hma : Pos ma) (hmw : Pos mw) :
+    ∀ (fs : List Nat) (w a : List Nlri), (famLoop inclW ms attr ma mw fs w a).2 = false →
+      ∀ f ∈ fs,
+        (∀ x ∈ ma, x.fam = f → InReach (famLoop inclW ms attr ma mw fs w a).1 x) ∧
+        (inclW = true → ∀ x ∈ mw, x.fam = f → InUnreach (famLoop inclW ms attr ma mw fs w a).1 x) := by
+  intro fs
+  induction fs with
+  | nil => intro w a _ f hf; simp at hf
+  | cons f0 fs ih =>
+    intro w a he f hf
+    unfold famLoop at he ⊢
+    simp only at he ⊢
+    generalize hst : famStep inclW ms attr f0 (ma.filter (fun x => x.fam = f0)) (mw.filter (fun x => x.fam = f0)) w a = st at he ⊢
+    by_cases h2 : st.2 = true
+    · simp [h2] at he
+    · have h2' : st.2 = false := by simpa using h2
+      simp only [h2', Bool.false_eq_true, if_false] at he ⊢
+      have c := famStep_cover inclW ms attr f0 (ma.filter (fun x => x.fam = f0)) (mw.filter (fun x => x.fam = f0)) w a
+        (by rw [hst]; exact h2')
+        (fun y hy => hma y (List.mem_filter.1 hy).1) (fun y hy => hmw y (List.mem_filter.1 hy).1)
+      rw [hst] at c
+      simp only [List.mem_cons] at hf
+      rcases hf with rfl | hf
+      · constructor
+        · intro x hx hxf
+          exact InReach_mono (fun m hm => List.mem_append_left _ hm) (c.1 x (List.mem_filter.2 ⟨hx, by simpa using hxf⟩))
+        · intro hi x hx hxf
+          exact InUnreach_mono (fun m hm => List.mem_append_left _ hm) (c.2 hi x (List.mem_filter.2 ⟨hx, by simpa using hxf⟩))
+      · have := ih [] [] he f hf
+        constructor
+        · intro x hx hxf
+          exact InReach_mono (fun m hm => List.mem_append_right _ hm) (this.1 x hx hxf)
+        · intro hi x hx hxf
+          exact InUnreach_mono (fun m hm => List.mem_append_right _ hm) (this.2 hi x hx hxf)
+
+theorem cut_all : ∀ (l : List Msg), (cut l).2 = false → (cut l).1 = l := by
+  intro l
+  induction l with
+  | nil => intro _; rfl
+  | cons x xs ih =>
+    intro h
+    unfold cut at h ⊢
+    split
+    · rename_i hb; simp [hb] at h
+    · rename_i hb
+      simp only [hb, if_false] at h
+      simp [ih h]
+
 end Exa.Pack
